@@ -243,6 +243,19 @@ impl VisitMut for Rw {
                 }
             }
         }
+        if self.py_unit.is_some() {
+            // R3 (Python wrappers): a float literal expression such as `1.0 / 3.0` is the float constant of that value
+            if !matches!(e, Expr::Lit(syn::ExprLit { lit: syn::Lit::Int(_), .. })) {
+                if let Some(r) = float_lit_to_real(e) {
+                    if r.contains("real") {
+                        let ts: proc_macro2::TokenStream = r.parse().unwrap();
+                        *e = parse_quote!(Fl::lit(Ghost(#ts)));
+                        self.bump("R3_float_literal");
+                        return;
+                    }
+                }
+            }
+        }
         if self.display_unit {
             // R11: `m.iter().map(T::to_string).collect()` -> `m.to_strings()` (all entries in storage order, each rendered by Display)
             if let Expr::MethodCall(c) = e {
@@ -262,6 +275,23 @@ impl VisitMut for Rw {
                                     self.bump("R11_iter_map_to_string_collect");
                                     return;
                                 }
+                            }
+                        }
+                    }
+                }
+            }
+            // R11: `m.iter().all(T::is_zero)` (or the closure `|x| x.is_zero()`) -> `m.all_zero()`
+            if let Expr::MethodCall(c) = e {
+                if c.method == "all" && c.args.len() == 1 {
+                    let is_zero_fn = matches!(&c.args[0], Expr::Path(p) if p.path.segments.last().map(|s| s.ident == "is_zero").unwrap_or(false))
+                        || matches!(&c.args[0], Expr::Closure(cl) if cl.inputs.len() == 1 && matches!(&*cl.body, Expr::MethodCall(b) if b.method == "is_zero" && b.args.is_empty()));
+                    if is_zero_fn {
+                        if let Expr::MethodCall(it) = &*c.receiver {
+                            if it.method == "iter" && it.args.is_empty() {
+                                let recv = (*it.receiver).clone();
+                                *e = parse_quote!(#recv.all_zero());
+                                self.bump("R11_iter_all_is_zero");
+                                return;
                             }
                         }
                     }
